@@ -1817,7 +1817,7 @@ size_t rtosc_scan_arg_val(const char* src,
 
                 // lossless format is appended in parentheses?
                 //  => take it directly from there
-                if(skip_fmt(&src, "%*f (%n"))
+                if(*src == '.' && skip_fmt(&src, "%*f (%n"))
                 {
                     sscanf(src, " ... + 0x%8"PRIx64"p-32 s )%n",
                            &secfracs, &rd);
